@@ -336,6 +336,41 @@ impl<'a> World<'a> {
         None
     }
 
+    /// A further read of `addr` (data_get_public, or chunk_get when `chunk_only`) with every holder honest.
+    async fn honest_read(&mut self, addr: xor_name::XorName, chunk_only: bool) -> Option<Result<Vec<u8>, String>> {
+        let result = Arc::new(Mutex::new(None));
+        let (client, res) = (self.client.clone(), result.clone());
+        tokio::spawn(async move {
+            let r = if chunk_only { client.chunk_get(addr).await.map(|c| c.value().to_vec()) } else { client.data_get_public(addr).await.map(|b| b.to_vec()) };
+            *res.lock().unwrap() = Some(r.map_err(|e| format!("{e:?}")));
+        });
+        self.drive(result.clone(), &|w: &World, key: &[u8]| match w.held.get(key) {
+            Some(v) => Answer::Found(v.clone()),
+            None => Answer::NotFound,
+        })
+        .await;
+        let got = result.lock().unwrap().clone();
+        got
+    }
+
+    /// After a read that a fault or a byzantine holder made fail: the caller tries again and this time every holder
+    /// answers honestly. The retry must return the data at the address (and nothing else).
+    async fn retry_after_failed_read(&mut self, addr: xor_name::XorName, chunk_only: bool, want: &[u8], prop: &'static str, kind: &str) {
+        self.rep.probe("retry_after_failed_read");
+        let again = self.honest_read(addr, chunk_only).await;
+        self.rep.log(format!("retry with honest holders -> {}", match &again { Some(Ok(b)) => format!("Ok({} bytes)", b.len()), Some(Err(_)) => "Err".into(), None => "stuck".into() }));
+        match again {
+            Some(Ok(bytes)) if bytes == want => self.rep.probe("retry_ok"),
+            Some(Ok(bytes)) => {
+                self.rep.violate(prop, "retry_returned_other_bytes", &[("first_attempt", kind.into())], format!("the first read failed ({kind}); the retry against honest holders returned Ok with {} bytes that are not the data at the requested address", bytes.len()));
+            }
+            Some(Err(e)) => {
+                self.rep.violate("C14", "round_trip_failed", &[("after", "failed_read".into()), ("first_attempt", kind.into())], format!("the retry failed although every chunk was served honestly: {}", e.chars().take(160).collect::<String>()));
+            }
+            None => self.rep.violate(prop, "read_stuck", &[("fault", "retry".into())], "the retry never completed"),
+        }
+    }
+
     fn hold(&mut self, c: &Chunk) {
         self.held.insert(c.name().0.to_vec(), chunk_record_value(c.value()));
     }
@@ -661,7 +696,13 @@ impl<'a> World<'a> {
                             self.rep.violate("C14", "round_trip_differs", &[], "returned bytes differ");
                         }
                     }
-                    Some(Err(_)) => self.rep.probe("read_failed_cleanly"),
+                    Some(Err(_)) => {
+                        self.rep.probe("read_failed_cleanly");
+                        if plan.seed % 2 == 0 {
+                            let want = data.clone();
+                            self.retry_after_failed_read(*dm.name(), false, &want, prop, kind).await;
+                        }
+                    }
                     None => self.rep.violate(prop, "read_stuck", &[("fault", kind.into())], "the read never completed"),
                 }
             }
@@ -714,6 +755,10 @@ impl<'a> World<'a> {
                     }
                 } else {
                     self.rep.probe("read_failed_cleanly");
+                    if plan.seed % 2 == 0 {
+                        let want = chunk.value().to_vec();
+                        self.retry_after_failed_read(*chunk.name(), true, &want, "C15", kind).await;
+                    }
                 }
             }
             Task::Vault { replies, finish } => {
